@@ -90,3 +90,60 @@ fn c06_merge_top_k_k2_3segs() {
 fn c06_merge_top_k_k4_3segs() {
     merge_check::<4, 4, 2, 4, 10>(3);
 }
+
+/// The tie-break case that needs K >= 4: three segments; the first two contribute six items
+/// with concrete keys; the third contributes four items sharing ONE symbolic key, in an
+/// ARBITRARY (symbolic) order of their doc ids - what `into_vec()` of a segment collector may
+/// return. The result must be the global top 4 by (key desc, address asc).
+#[kani::proof]
+#[kani::unwind(12)]
+fn c06_merge_top_k_k4_unordered_last_segment() {
+    const M: usize = 10;
+    let k3: u8 = kani::any();
+    kani::assume(k3 <= 2);
+    let d: [u8; 4] = kani::any();
+    // a permutation of doc ids 0..4 for the third segment
+    let mut seen = 0u8;
+    let mut i = 0;
+    while i < 4 {
+        kani::assume(d[i] < 4);
+        seen |= 1 << d[i];
+        i += 1;
+    }
+    kani::assume(seen == 0b1111);
+    let keys: [u8; M] = [2, 2, 2, 0, 0, 0, k3, k3, k3, k3];
+    let segs: [u32; M] = [0, 0, 0, 0, 1, 1, 2, 2, 2, 2];
+    let docs: [u8; M] = [0, 1, 2, 3, 0, 1, d[0], d[1], d[2], d[3]];
+    let mut items: Vec<(u8, DocAddress)> = Vec::with_capacity(M);
+    let mut i = 0;
+    while i < M {
+        items.push((keys[i], DocAddress::new(segs[i], docs[i] as u32)));
+        i += 1;
+    }
+    let res = merge_top_k(items.into_iter(), 0..4, NaturalComparator);
+    assert!(res.len() == 4);
+    let mut r = 0;
+    while r < 4 {
+        let (k, addr) = res[r];
+        let mut better = 0;
+        let mut found = false;
+        let mut j = 0;
+        while j < M {
+            let aj = (segs[j], docs[j] as u32);
+            let ai = (addr.segment_ord, addr.doc_id);
+            if aj == ai {
+                found = true;
+                assert!(keys[j] == k);
+            }
+            if keys[j] > k || (keys[j] == k && aj < ai) {
+                better += 1;
+            }
+            j += 1;
+        }
+        assert!(found);
+        assert!(better == r);
+        r += 1;
+    }
+    kani::cover!(k3 == 1 && d[0] == 3, "third segment handed over in descending doc order");
+    std::mem::forget(res);
+}
